@@ -5,7 +5,8 @@
  * Modules: A (sender), B, C.  Per job (heap-shape changing): SEND (0 tell B, 1 publish literal topic, 2 publish
  * matched by regular-expression subscriptions, 3 topic-less broadcast), NSEND, SUBB/SUBC (subscribed or not),
  * PAUSEB (B paused at send time), POST (0 dispatch, 1 stop B before the loop reads, 2 B stays paused until the loop
- * ends, 3 quit then flush, 4 deregister B first), CAP (pipe capacity).
+ * ends, 3 quit then flush, 4 deregister B first, 5 B unsubscribes / re-subscribes with other flags before the loop
+ * reads: it was eligible at send time and stays RUNNING, so it still gets the message), CAP (pipe capacity).
  * MATCH (SEND 2: the regex matching relation, every one of the 4 relations is a job).
  * Symbolic: the auto-free bit, the quit code, errno left by handlers. */
 #include "vf.h"
@@ -157,9 +158,15 @@ int vf_main(void) {
     r = m_ctx_quit(code); VF_CHECK(r == 0, "quit before the messages were read");
     r = m_ctx_dispatch(); VF_CHECK(r == code, "loop ends with the code");
     if (PAUSEB) expB = 0;
-#else
+#elif POST == 4
     { m_mod_t *ref = m_mem_ref(B); r = m_mod_deregister(&ref); VF_CHECK(r == 0, "deregister B"); } expB = 0;
     r = m_ctx_dispatch();
+#else
+#if SEND == 1 || SEND == 2
+    if (SUBB) { r = m_mod_ps_unsubscribe(B, SEND == 1 ? lit : rxB); VF_CHECK(r == 0, "B unsubscribes after the send"); }
+    if (SUBC) { r = m_mod_ps_subscribe(C, SEND == 1 ? lit : rxC, M_SRC_PRIO_HIGH, NULL); VF_CHECK(r == 0, "C re-subscribes with other flags after the send"); regC = SUBC && SEND == 2 ? &((ev_src_t *)m_map_get(C->subscriptions, rxC))->ps_src.reg : regC; }
+#endif
+    for (int d = 0; d < NSEND + 2; d++) r = m_ctx_dispatch();
 #endif
     int gotB = 0, gotC = 0, gotA = 0;
     for (int i = 0; i < NSEND; i++) {
